@@ -114,7 +114,8 @@ func main() {
 	shard := flag.Int("shard", 0, "")
 	nshard := flag.Int("nshard", 1, "")
 	out := flag.String("out", "", "")
-	N := flag.Int("n", 0, "max length (default by tier)")
+	NQ := flag.Int("nq", 0, "max length in the quick tier (default 100)")
+	NT := flag.Int("nt", 0, "max length in the thorough tier (default 160)")
 	impl := flag.String("impl", "default", "label of the build flavour (evidence only)")
 	replay := flag.String("replay", "", "")
 	flag.Parse()
@@ -135,14 +136,16 @@ func main() {
 		r.Write(*out)
 		return
 	}
-	r.Rule = "bounded-exhaustive: every (len a, len b) in 0..N x 0..N, start offsets of dst/a/b in 0..7 (sampled jointly: all 8 for each slice with the others drawn from the PRNG), contents PRNG/0x00/0xFF, aliasing distinct|dst==a|dst==b, dst length min..min+3; oracle = bytewise XOR from copies + unchanged guard zones; distinct = (len a, len b, alias, offset triple) combinations"
+	r.Rule = "bounded-exhaustive: every (len a, len b) in 0..N x 0..N, start offsets of dst/a/b in 0..7 (all 8 for each slice with the others drawn from the PRNG, plus all 8 equal-offset triples), contents PRNG/0x00/0xFF, aliasing distinct|dst==a|dst==b, dst length min..min+3; oracle = bytewise XOR from copies + unchanged guard zones; distinct = (len a, len b, alias, offset triple) combinations"
 	r.Assumptions = []string{"xor_arm.go/.s cannot execute on this amd64 sandbox: not covered", "partial overlaps other than dst==a / dst==b are outside the statement"}
-	n := 40
+	n := 100
 	if *tier == "thorough" {
-		n = 130
+		n = 160
 	}
-	if *N > 0 {
-		n = *N
+	if *tier == "thorough" && *NT > 0 {
+		n = *NT
+	} else if *tier != "thorough" && *NQ > 0 {
+		n = *NQ
 	}
 	rng := rand.New(rand.NewSource(*seed + int64(*shard)*101))
 	idx := 0
@@ -161,7 +164,7 @@ func main() {
 					continue
 				}
 				for off := 0; off < 8; off++ {
-					for which := 0; which < 3; which++ {
+					for which := 0; which < 4; which++ {
 						c := xcase{La: la, Lb: lb, Ld: mn + rng.Intn(4), Alias: alias, Pattern: rng.Intn(4) % 3, Seed: rng.Int63()}
 						c.Oa, c.Ob, c.Od = rng.Intn(8), rng.Intn(8), rng.Intn(8)
 						switch which {
@@ -171,6 +174,8 @@ func main() {
 							c.Ob = off
 						case 2:
 							c.Od = off
+						case 3: // all three slices with the same alignment (word-aligned fast paths need all of them aligned)
+							c.Oa, c.Ob, c.Od = off, off, off
 						}
 						r.Eval(1)
 						r.DistinctKey(fmt.Sprintf("%d/%d/%s/%d%d%d", la, lb, alias, c.Oa, c.Ob, c.Od))
